@@ -191,34 +191,39 @@ class Automaton:
         return Token(Location(1, 1), types[sub % len(types)], OTHER_VALUE if value == "OTHER" else value)
 
     def _probe(self):
+        """Acceptance table. The state of a stateful predicate is (nesting depth, satisfied flag): both are set
+        before the probe and read after it; any OTHER attribute that changes is an unknown kind of state."""
         full = {}
-        # is the predicate "open" (claims every item for its group) at a given depth?  (absent method = never)
         self.open = {}
         for pi, p in enumerate(self.preds):
             for d in range(-1, MAXD + 1):
-                q = copy.deepcopy(p)
-                sp = stateful_part(q)
-                if sp is not None:
-                    sp.depth = d
-                fn = getattr(q, "is_open", None)
-                self.open[(pi + 1, d)] = bool(fn()) if callable(fn) else False
-        for pi, p in enumerate(self.preds):
-            for d in range(-1, MAXD + 1):
-                for ci, (k, v) in enumerate(self.full_classes):
+                for sat in (False, True):
                     q = copy.deepcopy(p)
                     sp = stateful_part(q)
                     if sp is not None:
                         sp.depth = d
-                    before = {a: b for a, b in vars(sp).items() if a not in ("depth", "satisfied")} if sp is not None else None
-                    acc = bool(q.accept(self.token(k, v)))
-                    nd = sp.depth if sp is not None else 0
-                    if sp is not None and {a: b for a, b in vars(sp).items() if a not in ("depth", "satisfied")} != before:
-                        raise MachineryError(f"predicate {describe(p)} carries state other than a nesting counter")
-                    full[(pi, d, ci)] = (acc, nd)
+                        if hasattr(sp, "satisfied"):
+                            sp.satisfied = sat
+                    fn = getattr(q, "is_open", None)
+                    self.open[(pi + 1, d, sat)] = bool(fn()) if callable(fn) else False
+                    for ci, (k, v) in enumerate(self.full_classes):
+                        q = copy.deepcopy(p)
+                        sp = stateful_part(q)
+                        if sp is not None:
+                            sp.depth = d
+                            if hasattr(sp, "satisfied"):
+                                sp.satisfied = sat
+                        before = {a: b for a, b in vars(sp).items() if a not in ("depth", "satisfied")} if sp is not None else None
+                        acc = bool(q.accept(self.token(k, v)))
+                        nd = sp.depth if sp is not None else 0
+                        ns = bool(getattr(sp, "satisfied", False)) if sp is not None else False
+                        if sp is not None and {a: b for a, b in vars(sp).items() if a not in ("depth", "satisfied")} != before:
+                            raise MachineryError(f"predicate {describe(p)} carries state other than a nesting counter and a satisfied flag")
+                        full[(pi, d, sat, ci)] = (acc, nd, ns)
         # quotient alphabet: classes that no predicate at no depth distinguishes are merged
         sigs = {}
         for ci in range(len(self.full_classes)):
-            sig = tuple(full[(pi, d, ci)] for pi in range(len(self.preds)) for d in range(-1, MAXD + 1))
+            sig = tuple(full[(pi, d, sat, ci)] for pi in range(len(self.preds)) for d in range(-1, MAXD + 1) for sat in (False, True))
             sigs.setdefault(sig, []).append(ci)
         self.class_members = sorted(sigs.values())
         # prefer a realistic representative (kind matching the usual kind of the value)
@@ -226,8 +231,9 @@ class Automaton:
         self.acc = {}
         for pi in range(len(self.preds)):
             for d in range(-1, MAXD + 1):
-                for qi, m in enumerate(self.class_members):
-                    self.acc[(pi + 1, d, qi + 1)] = full[(pi, d, m[0])]
+                for sat in (False, True):
+                    for qi, m in enumerate(self.class_members):
+                        self.acc[(pi + 1, d, sat, qi + 1)] = full[(pi, d, sat, m[0])]
         # realistic classes: some member pairs a value with the kind a lexer would give it (or any kind for OTHER)
         natural = {"(": "Punct", ")": "Punct", "{": "Punct", "}": "Punct", ";": "Punct", "=>": "Punct", "=": "Op", ":": "Op"}
         self.realistic = []
@@ -242,11 +248,12 @@ class Automaton:
         self.uniform = True
         for pi in range(len(self.preds)):
             for d in range(2, MAXD):
-                for qi in range(len(self.classes)):
-                    a1, n1 = self.acc[(pi + 1, d, qi + 1)]
-                    a2, n2 = self.acc[(pi + 1, d + 1, qi + 1)]
-                    if a1 != a2 or (pi + 1 in self.stateful and n1 - d != n2 - (d + 1)):
-                        self.uniform = False
+                for sat in (False, True):
+                    for qi in range(len(self.classes)):
+                        a1, n1, s1 = self.acc[(pi + 1, d, sat, qi + 1)]
+                        a2, n2, s2 = self.acc[(pi + 1, d + 1, sat, qi + 1)]
+                        if a1 != a2 or s1 != s2 or (pi + 1 in self.stateful and n1 - d != n2 - (d + 1)):
+                            self.uniform = False
 
     def _pick(self, members):
         pref = {"(": "Punct", ")": "Punct", "{": "Punct", ";": "Punct", "=>": "Punct", "=": "Op", ":": "Op", "OTHER": None}
@@ -333,10 +340,13 @@ def tla_module(autos, name="AutomatonData") -> str:
         for pi in range(1, len(a.preds) + 1):
             drow = []
             for d in range(-1, MAXD + 1):
-                drow.append(tup("<<%s, %d>>" % (b(a.acc[(pi, d, ci)][0]), a.acc[(pi, d, ci)][1]) for ci in range(1, len(a.classes) + 1)))
+                srow = []
+                for sat in (False, True):
+                    srow.append(tup("<<%s, %d, %s>>" % (b(a.acc[(pi, d, sat, ci)][0]), a.acc[(pi, d, sat, ci)][1], b(a.acc[(pi, d, sat, ci)][2])) for ci in range(1, len(a.classes) + 1)))
+                drow.append(tup(srow))
             prow.append(tup(drow))
         rows.append(tup(prow))
-    out.append("AOpen == " + tup(tup(tup(b(a.open[(pi, d)]) for d in range(-1, MAXD + 1)) for pi in range(1, len(a.preds) + 1)) for a in autos))
+    out.append("AOpen == " + tup(tup(tup(tup(b(a.open[(pi, d, sat)]) for sat in (False, True)) for d in range(-1, MAXD + 1)) for pi in range(1, len(a.preds) + 1)) for a in autos))
     out.append("AAcc == " + tup(rows))
     out.append("====")
     return "\n".join(out) + "\n"
